@@ -34,10 +34,29 @@ NODE = {
 }
 
 
-def callees_all(facts, f):
-    """callees of f and of the closures written inside it (a loop body turned into `iter().map(|x| ..)`)"""
+_TABLE_CACHE = {}
+
+
+def XF_TABLE_FNS(facts):
+    k = id(facts)
+    if k not in _TABLE_CACHE:
+        _TABLE_CACHE.clear()
+        _TABLE_CACHE[k] = {e["fn"].split("::")[-1] for e in xptable.entries(facts)}
+    return _TABLE_CACHE[k]
+
+
+def callees_all(facts, f, depth=0):
+    """callees of f and of the closures written inside it (a loop body turned into `iter().map(|x| ..)`), and of the private
+    helpers of the function library it calls (two sibling functions sharing `substring_around(args, pick)`)"""
     out = []
     for g in [f] + [c for c in facts.fns.values() if c.get("parent") == f["path"]]:
+        if depth < 2:
+            for bi, t in facts.mir_calls(g):
+                c = t.get("callee")
+                h = facts.fns.get(facts.callee_id(c)) if c else None
+                if h is not None and h["path"].startswith("xml_xpath::eval::func::") and str(h.get("vis", "")).startswith("Restricted") \
+                        and "body" in h and h["id"] != f["id"] and h["path"].split("::")[-1] not in XF_TABLE_FNS(facts):
+                    out += callees_all(facts, h, depth + 1)
         for bi, t in facts.mir_calls(g):
             c = t.get("callee")
             if c:
